@@ -195,3 +195,13 @@ func GetParentPath(path string) string {
 	}
 	return path[0:i]
 }
+
+// IsDescendantPath reports whether path lies strictly beneath ancestor at a path-element boundary:
+// the text after the ancestor starts a new element ('/') or a list key ('[').
+func IsDescendantPath(path string, ancestor string) bool {
+	if len(path) <= len(ancestor) || !strings.HasPrefix(path, ancestor) {
+		return false
+	}
+	next := path[len(ancestor)]
+	return next == '/' || next == '['
+}
